@@ -43,7 +43,13 @@ func (g *tryGen) thrown() MalType {
 // expression that fails (one way or another) or not
 func (g *tryGen) body(depth int) MalType {
 	r := g.r
-	switch r.intn(13) {
+	switch r.intn(15) {
+	case 13:
+		// thrown WHILE a macro is being expanded (by the macro function itself: argument validation); the operand
+		// arrives unevaluated, so the thrown value is the operand FORM
+		return call1("m-throw", g.thrown())
+	case 14:
+		return []MalType{call1("cond", false), call1("cond", 1, 2, 3)}[r.intn(2)] // the library's own validation: a string
 	case 0, 1:
 		return call1("throw", g.thrown())
 	case 2:
@@ -161,6 +167,7 @@ func (g *tryGen) program() MalType {
 	forms := []MalType{sy("do"),
 		ls(sy("def"), sy("f-throw"), ls(sy("fn"), vc(sy("v")), call1("trace!", kw("in-f")), call1("throw", sy("v")))),
 		ls(sy("def"), sy("e"), kw("outer-e")),
+		ls(sy("defmacro"), sy("m-throw"), ls(sy("fn"), vc(sy("form")), call1("trace!", kw("expanding")), call1("throw", sy("form")))),
 	}
 	t := g.tryForm(3)
 	switch r.intn(5) {
@@ -204,14 +211,21 @@ var badParams = []MalType{
 	vc(sy("a"), sy("a")), vc(sy("&"), nil), vc(sy("&"), kw("k")), vc(sy("a"), 1), vc(sy("a"), sy("&"), nil), ls(sy("&"), 5),
 	ls(sy("a"), sy("&"), ls(sy("b"))), vc(sy("a"), sy("&"), sy("&")), vc(sy("a"), sy("b"), sy("&"), 7),
 	vc(sy("&"), HashMap{Val: map[string]MalType{}}), vc(sy("&"), ls()), vc(true), vc(sy("a"), sy("&"), sy("r")),
+	// well-formed lists: with 0‥3 arguments most calls are arity errors (also of functions WITHOUT a body, see badParamCalls)
+	vc(sy("a")), vc(), vc(sy("a"), sy("b")), ls(sy("a")), ls(),
 }
 
 func badParamCalls(p MalType, args []MalType) []MalType {
 	f := ls(sy("fn"), p, 1)
 	fr := ls(sy("fn"), p, sy("a"))
 	call := func(h MalType) MalType { return List{Val: append([]MalType{h}, args...)} }
+	f0 := ls(sy("fn"), p)       // no body form at all: the stored body is `(do)`
+	f2 := ls(sy("fn"), p, 1, 2) // two body forms
 	out := []MalType{
-		call(f), call(fr),
+		call(f), call(fr), call(f0), call(f2),
+		call1("apply", f0, vc(args...)),
+		ls(sy("do"), ls(sy("def"), sy("bf0"), f0), call(sy("bf0"))),
+		ls(sy("do"), ls(sy("defmacro"), sy("bm0"), f0), call(sy("bm0"))),
 		call1("apply", f, vc(args...)),
 		ls(sy("let"), vc(sy("g"), f), call(sy("g"))),
 		ls(sy("do"), ls(sy("defmacro"), sy("bm"), f), call(sy("bm"))),
